@@ -149,6 +149,17 @@ SCHEME_LOOKUP = {
 #
 
 
+def _own_pkt(cmd: Command, pkt: Packet) -> Packet:
+    """Return the Packet of our own Command.
+
+    The send layer returns the echo - or, if our echo was not heard but the peer's reply
+    was, that reply: the Offer/Accept we report is our own frame, never the peer's.
+    """
+    if pkt._hdr == cmd.tx_header:
+        return pkt
+    return type(pkt)._from_cmd(cmd)  # (Packet is imported for type-checking only)
+
+
 class BindContextBase:
     """The context is the Device class. It should be initiated with a default state."""
 
@@ -303,7 +314,7 @@ class BindContextRespondent(BindContextBase):
         )
 
         self.state.cast_accept_offer()
-        return pkt
+        return _own_pkt(cmd, pkt)
 
     async def _wait_for_confirm(
         self, accept: Packet, timeout: float = _AFFIRM_WAIT_TIME
@@ -388,7 +399,7 @@ class BindContextSupplicant(BindContextBase):
 
         # await state._fut
         self.state.cast_offer()
-        return pkt
+        return _own_pkt(cmd, pkt)
 
     async def _wait_for_accept(
         self, tender: Packet, timeout: float = _ACCEPT_WAIT_TIME
